@@ -49,6 +49,8 @@ func vpErrIsLast() bool { return true }
 
 func vpSampleRecs(tag string, shape int) []*Fastq {
 	switch shape {
+	case 4:
+		return []*Fastq{vpRecord(tag+"a.", 1, 4200, 1), vpRecord(tag+"b.", 1, 2, 0)}
 	case 0:
 		return []*Fastq{vpRecord(tag+"a.", 1, 2, 0)}
 	case 1:
@@ -108,4 +110,20 @@ func vpFixedPoint(rec any) (bool, bool) {
 	}
 	got := vpCollect(vpOneShot(w.b), 3)
 	return true, len(got) == 1 && !got[0].err && string(got[0].name) == string(f.Name) && string(got[0].seq) == string(f.Sequence) && string(got[0].qual) == string(f.Quals)
+}
+
+func vpOneRecord(i, extra int) []byte {
+	out := []byte{'@'}
+	for k := 0; k <= extra; k++ {
+		out = append(out, 'n')
+	}
+	out = append(out, '\n')
+	for j := 0; j < 8; j++ {
+		out = append(out, "ACGT"[(i+j*j)%4])
+	}
+	out = append(out, "\n+\n"...)
+	for j := 0; j < 8; j++ {
+		out = append(out, byte('!'+(i*3+j)%40))
+	}
+	return append(out, '\n')
 }
